@@ -101,6 +101,7 @@ def parse_result_file(path):
 
 
 def run_kani(crate, harnesses, tier, opts, extra_env=None, tdir_suffix="", playback=False, jobs=None):
+    # one target directory per (crate, property): checks of different properties can run concurrently
     """Runs cargo kani on the given harnesses of one harness crate; returns {harness: result}."""
     crate_dir = os.path.join(ROOT, "harness", crate)
     tdir = os.path.join(TARGET, crate + tdir_suffix)
@@ -171,7 +172,7 @@ def functions_encoded(crate, harness, tdir_suffix=""):
 def extract_and_replay(crate, harness, opts, prop):
     """Second Kani run with covers off and concrete playback; then native replay (real deps)."""
     rc, out, wall = run_kani(crate, [harness], "quick", opts, extra_env={"RUSTFLAGS": "--cfg no_witness"},
-                             tdir_suffix="_cex", playback=True)
+                             tdir_suffix="__" + prop + "_cex", playback=True)
     m = re.search(r"let concrete_vals: Vec<Vec<u8>> = vec!\[(.*?)\n\s*\];", out, re.S)
     if not m:
         return {"extracted": False, "reason": "no concrete playback in Kani output", "wall_s": wall}
@@ -195,7 +196,7 @@ def native_replay(path):
     hdr = dict(re.findall(r"# (\w+)=(.*)", open(path).read()))
     crate, harness = hdr["crate"], hdr["harness"]
     ndir = os.path.join(ROOT, "harness", crate, "native")
-    tdir = os.path.join(TARGET, crate + "_native")
+    tdir = os.path.join(TARGET, crate + "_native_" + hdr.get("property", "x"))
     if os.path.exists(os.path.join(REPO, "Cargo.lock")) and not os.path.exists(os.path.join(ndir, "Cargo.lock")):
         shutil.copy(os.path.join(REPO, "Cargo.lock"), os.path.join(ndir, "Cargo.lock"))
     out = {}
@@ -268,10 +269,11 @@ def main():
     # gate: the dependency models must agree with the real crates (native differential run)
     mc_dir = os.path.join(ROOT, "modelcheck")
     mc = {"ran": False}
-    rc_, o_, w_ = sh(["cargo", "build", "--offline", "--release", "--target-dir", os.path.join(TARGET, "modelcheck")], cwd=mc_dir)
+    mc_t = os.path.join(TARGET, "modelcheck__" + prop)
+    rc_, o_, w_ = sh(["cargo", "build", "--offline", "--release", "--target-dir", mc_t], cwd=mc_dir)
     if rc_ == 0:
         rounds = 2000 if tier == "quick" else 20000
-        rc_, o_, w_ = sh([os.path.join(TARGET, "modelcheck", "release", "modelcheck"), str(seed + 1), str(rounds)], cwd=mc_dir, timeout=900)
+        rc_, o_, w_ = sh([os.path.join(mc_t, "release", "modelcheck"), str(seed + 1), str(rounds)], cwd=mc_dir, timeout=900)
         mc = {"ran": True, "exit": rc_, "summary": (o_.strip().splitlines() or [""])[-1], "wall_s": round(w_, 1)}
     if not mc.get("ran") or mc.get("exit") != 0:
         print("PROBLEM: dependency model disagrees with the real crate (or modelcheck failed to build):", (o_ or "")[-600:])
@@ -297,7 +299,7 @@ def main():
         if not sel:
             problems.append("no harness selected in crate %s" % crate)
             continue
-        results, out, wall = run_kani(crate, sel, tier, opts)
+        results, out, wall = run_kani(crate, sel, tier, opts, tdir_suffix="__" + prop)
         if "__build_error__" in results and opts.get("build_failure_is_violation"):
             # the catalogue of derived types no longer compiles although /repo itself builds:
             # the derive output is wrong for a supported shape (C18)
@@ -344,9 +346,9 @@ def main():
             else:
                 problems.append("%s: %s" % (h, r["status"]))
         rep = sel[0]
-        f = functions_encoded(crate, rep)
+        f = functions_encoded(crate, rep, "__" + prop)
         for h in sel[1:40:7]:
-            f = sorted(set(f) | set(functions_encoded(crate, h)))
+            f = sorted(set(f) | set(functions_encoded(crate, h, "__" + prop)))
         fns |= set(f)
         groups_ev.append({"crate": crate, "harnesses": len(sel), "wall_s": round(wall, 1), "opts": opts})
 
@@ -356,7 +358,7 @@ def main():
         for nh in grp.get("native", []):
             crate = grp["crate"]
             ndir = os.path.join(ROOT, "harness", crate, "native")
-            tdir = os.path.join(TARGET, crate + "_native")
+            tdir = os.path.join(TARGET, crate + "_native_" + prop)
             if os.path.exists(os.path.join(REPO, "Cargo.lock")) and not os.path.exists(os.path.join(ndir, "Cargo.lock")):
                 shutil.copy(os.path.join(REPO, "Cargo.lock"), os.path.join(ndir, "Cargo.lock"))
             rc, o, _ = sh(["cargo", "build", "--offline", "--release", "--target-dir", tdir, "--bin", "replay"], cwd=ndir)
